@@ -398,23 +398,23 @@ def ugrid_ds(m, dtype, fill, start, wrap):
     return ds
 
 
-def mpas_ds(m):
+def mpas_ds(m, idt=np.int32):
     import xarray as xr
 
     w = m.width
-    voc = np.zeros((m.n_face, w), dtype=np.int32)
+    voc = np.zeros((m.n_face, w), dtype=idt)
     for i, f in enumerate(m.faces):
         voc[i, : len(f)] = np.asarray(f) + 1
     inc = [[] for _ in range(m.n_node)]
     for fi, f in enumerate(m.faces):
         for v in f:
             inc[v].append(fi + 1)
-    cov = np.zeros((m.n_node, 3), dtype=np.int32)
+    cov = np.zeros((m.n_node, 3), dtype=idt)
     for v, l in enumerate(inc):
         cov[v, : min(3, len(l))] = l[:3]
     ds = xr.Dataset()
     ds["verticesOnCell"] = xr.DataArray(voc, dims=["nCells", "maxEdges"])
-    ds["nEdgesOnCell"] = xr.DataArray(np.array(m.sizes(), dtype=np.int32), dims=["nCells"])
+    ds["nEdgesOnCell"] = xr.DataArray(np.array(m.sizes(), dtype=idt), dims=["nCells"])
     ds["cellsOnVertex"] = xr.DataArray(cov, dims=["nVertices", "vertexDegree"])
     ds["lonVertex"] = xr.DataArray(np.radians(m.lon) % (2 * np.pi), dims=["nVertices"], attrs=dict(units="rad"))
     ds["latVertex"] = xr.DataArray(np.radians(m.lat), dims=["nVertices"], attrs=dict(units="rad"))
@@ -429,11 +429,11 @@ def mpas_ds(m):
     return ds
 
 
-def exodus_ds(m):
+def exodus_ds(m, idt=np.int32):
     import xarray as xr
 
     w = m.width
-    c = np.zeros((m.n_face, w), dtype=np.int32)
+    c = np.zeros((m.n_face, w), dtype=idt)
     for i, f in enumerate(m.faces):
         c[i, : len(f)] = np.asarray(f) + 1
     ds = xr.Dataset()
@@ -469,17 +469,17 @@ def scrip_ds(m):
     return ds
 
 
-def esmf_ds(m):
+def esmf_ds(m, idt=np.int32):
     import xarray as xr
 
     w = m.width
-    c = np.full((m.n_face, w), -1, dtype=np.int32)
+    c = np.full((m.n_face, w), -1, dtype=idt)
     for i, f in enumerate(m.faces):
         c[i, : len(f)] = np.asarray(f) + 1
     ds = xr.Dataset()
     ds["nodeCoords"] = xr.DataArray(np.stack([m.lon % 360, m.lat], axis=1), dims=["nodeCount", "coordDim"], attrs=dict(units="degrees"))
-    ds["elementConn"] = xr.DataArray(c, dims=["elementCount", "maxNodePElement"], attrs=dict(long_name="conn", _FillValue=np.int32(-1)))
-    ds["numElementConn"] = xr.DataArray(np.array(m.sizes(), dtype=np.int8), dims=["elementCount"])
+    ds["elementConn"] = xr.DataArray(c, dims=["elementCount", "maxNodePElement"], attrs=dict(long_name="conn", _FillValue=idt(-1)))
+    ds["numElementConn"] = xr.DataArray(np.array(m.sizes(), dtype=idt if idt is np.int64 else np.int8), dims=["elementCount"])
     ds.attrs = dict(gridType="unstructured")
     return ds
 
@@ -521,8 +521,10 @@ for _api in ("from_dataset", "open_grid"):
     for _dt, _fill, _start in [("int32", -1, 1), ("int64", -1, 1), ("int64", -1, 0), ("int64", INT_FILL, 0), ("int64", 999999, 1), ("int32", -1, 0)]:
         for _wrap in (False, True):
             CTOR_SPECS.append(dict(ctor="dataset", dialect="UGRID", api=_api, dtype=_dt, fill=_fill, start=_start, wrap=_wrap))
-    for _d in ("MPAS", "MPAS-dual", "Exodus", "SCRIP", "ESMF"):
-        CTOR_SPECS.append(dict(ctor="dataset", dialect=_d, api=_api))
+    for _d in ("MPAS", "MPAS-dual", "Exodus", "ESMF"):
+        for _idt in ("int32", "int64"):
+            CTOR_SPECS.append(dict(ctor="dataset", dialect=_d, api=_api, dtype=_idt))
+    CTOR_SPECS.append(dict(ctor="dataset", dialect="SCRIP", api=_api))
 for _api in ("from_dataset:source_grid_spec", "Grid.__init__"):
     for _wrap in (False, True):
         CTOR_SPECS.append(dict(ctor="adopt", api=_api, wrap=_wrap))
@@ -608,14 +610,14 @@ def make_inputs(m, spec):
         if d == "UGRID":
             ds = ugrid_ds(m, np.dtype(spec["dtype"]), spec["fill"], spec["start"], spec["wrap"])
         elif d in ("MPAS", "MPAS-dual"):
-            ds = mpas_ds(m)
+            ds = mpas_ds(m, np.dtype(spec.get("dtype", "int32")).type)
         elif d == "Exodus":
-            ds = exodus_ds(m)
+            ds = exodus_ds(m, np.dtype(spec.get("dtype", "int32")).type)
         elif d == "SCRIP":
             k = min(m.sizes())
             ds = scrip_ds(meshes.AMesh([f[:k] for f in m.faces], m.xyz, False, m.kind))
         else:
-            ds = esmf_ds(m)
+            ds = esmf_ds(m, np.dtype(spec.get("dtype", "int32")).type)
         dual = d == "MPAS-dual"
         if spec["api"] == "open_grid":
             return [("dataset", ds)], lambda: ux.open_grid(ds, use_dual=dual)
@@ -688,9 +690,15 @@ def apply_grid_mut(g, kind, name, step):
         idx = step % v.size
         if flat is None or not np.shares_memory(flat, v):
             it = np.unravel_index(idx, v.shape)
-            v[it] = v[it] + 1 if v.dtype.kind in "fiu" else v[it]
+            if v.dtype.kind == "f":
+                v[it] = v[it] + 0.25 if v[it] <= 0 else v[it] - 0.25
+            elif v.dtype.kind in "iu":
+                v[it] = v[it] + 1 if v[it] != INT_FILL else 0
+            else:
+                return False
         elif v.dtype.kind == "f":
-            flat[idx] = flat[idx] + 0.25
+            # stay inside every coordinate's range (a longitude above 180 would be re-wrapped by the next getter)
+            flat[idx] = flat[idx] + 0.25 if flat[idx] <= 0 else flat[idx] - 0.25
         elif v.dtype.kind in "iu":
             flat[idx] = flat[idx] + 1 if flat[idx] != INT_FILL else 0
         else:
@@ -701,16 +709,20 @@ def apply_grid_mut(g, kind, name, step):
         g.attrs["c19_edit"] = int(step)
     elif kind == "setter":
         old = getattr(g, name)
-        new = xr.DataArray(np.asarray(old.values) * 1.0 + 0.125, dims=old.dims, attrs=dict(old.attrs))
+        vals = np.asarray(old.values) * 1.0
+        vals = np.where(vals <= 0, vals + 0.125, vals - 0.125)  # stays inside the coordinate's range
+        new = xr.DataArray(vals, dims=old.dims, attrs=dict(old.attrs))
         setattr(g, name, new)
     elif kind == "face_centers":
         g.construct_face_centers(method=name)
     elif kind == "normalize":
         if "node_x" in g.coordinates:
-            # make the call do something: scale the stored Cartesian coordinates first (public setters)
-            for c in ("node_x", "node_y", "node_z"):
-                old = getattr(g, c)
-                setattr(g, c, xr.DataArray(np.asarray(old.values) * 3.0, dims=old.dims, attrs=dict(old.attrs)))
+            r = np.sqrt(np.asarray(g.node_x.values) ** 2 + np.asarray(g.node_y.values) ** 2 + np.asarray(g.node_z.values) ** 2)
+            if np.allclose(r, 1.0):
+                # make the call do something: scale the stored Cartesian coordinates first (public setters)
+                for c in ("node_x", "node_y", "node_z"):
+                    old = getattr(g, c)
+                    setattr(g, c, xr.DataArray(np.asarray(old.values) * 3.0, dims=old.dims, attrs=dict(old.attrs)))
         g.normalize_cartesian_coordinates()
     elif kind == "chunk":
         g.chunk(n_node=2, n_edge=2, n_face=2)
@@ -865,6 +877,9 @@ def scenario_build(ctx, m, spec, history=None, tag="gen"):
     for step in range(len(history) if history is not None else ctx.n(3, 6)):
         if history is not None:
             k, nm = history[step]
+        elif step == 0 and "node_x" in g.coordinates:
+            # Cartesian coordinates that came straight from the input (zero-copy): normalising must not write into them
+            k, nm = "normalize", ""
         else:
             # operations the LIBRARY performs on the grid's own state; a caller writing values in place
             # through a zero-copy view of his own input array is not the grid modifying its input
@@ -961,7 +976,7 @@ def scenario_copy(ctx, m, api, source, warm_names, history=None, tag="gen"):
                  dict(inp, history=[]), dict(differs=obs_diff(og, oc)), None, ["copy_equal"])
     # interleaved history
     steps = history if history is not None else None
-    n_steps = len(steps) if steps is not None else ctx.n(6, 12)
+    n_steps = len(steps) if steps is not None else ctx.n(8, 16)
     hist, prog = [], []
     sides = [g, c]
     roots = [rg, rc]
@@ -973,6 +988,7 @@ def scenario_copy(ctx, m, api, source, warm_names, history=None, tag="gen"):
             k, nm = rng.choice(grid_mutators(sides[side], rng, ctx.thorough))
         other = 1 - side
         o_before = pub_obs(sides[other])
+        H = G.snapshot()  # after the observation: whatever a getter does to its own grid is not this step's doing
         try:
             if not apply_grid_mut(sides[side], k, nm, step):
                 continue
@@ -1002,6 +1018,13 @@ def scenario_copy(ctx, m, api, source, warm_names, history=None, tag="gen"):
                      ["copy_independent"])
             return
         H = H2
+    # the same abstract history in the Lean model: the code may alias no more than the model does
+    pm = model_run(ctx, False, 0, 0, api_code, -1, prog)
+    model_other_changed = [i for i, (st, pr) in enumerate(zip(pm["steps"], prog)) if st[1 - pr[0]] == 1]
+    if pm["copy"] == 0 and not model_other_changed:
+        ctx.hit("model-agrees:copy-independent")
+    else:
+        ctx.notes.append(f"model predicts aliasing for {api} (copy verdict {pm['copy']}, steps {model_other_changed}) that the code does not show")
     # separation must survive the history as well (theorem copy_independent_interleaved)
     if v == "sep":
         v2, x2, pa2, pb2 = lean_judge(ctx, H, rg, rc)
@@ -1076,6 +1099,7 @@ def scenario_export(ctx, m, api, source, second_call, uxda_flow=False, edits=Non
     for step in range(n_steps):
         o_before = pub_obs(g)
         e_before = deep_snap(e)
+        H = G.snapshot()
         try:
             if uxda_flow:
                 # the library itself edits the object it handed out earlier
@@ -1148,8 +1172,20 @@ def run(ctx):
         "buffers identified by np.shares_memory) contains every cell through which the two sides can influence each other; module-level state is C08's subject",
         "CPython/NumPy/xarray aliasing semantics (zero-copy wrapping, Dataset.copy(deep=True), drop_vars) are tied to the model only by this differential run",
     ]
+    import time
+
     rng = ctx.rng
-    ms = small_meshes(rng, ctx.n(4, 10))
+    t0 = time.time()
+    timing = ctx.extra.setdefault("family_wall_s", {})
+    # minimised past failures (and past false alarms) first
+    import json
+
+    for f in sorted((common.CORPUS / "C19").glob("*.json")):
+        replay(ctx, json.loads(f.read_text()))
+        ctx.hit("corpus")
+    timing["corpus"] = round(time.time() - t0, 1)
+    t0 = time.time()
+    ms = small_meshes(rng, ctx.n(6, 14))
     # (a) constructors: every variant at least once, on rotating meshes
     specs = list(CTOR_SPECS)
     rng.shuffle(specs)
@@ -1157,16 +1193,20 @@ def run(ctx):
     for rep in range(reps):
         for i, spec in enumerate(specs):
             scenario_build(ctx, ms[(i + rep) % len(ms)], spec)
+    timing["build"] = round(time.time() - t0, 1)
+    t0 = time.time()
     # (b) copies
     sources = ["topology", "dataset", "mpas"]
-    for rep in range(ctx.n(3, 10)):
+    for rep in range(ctx.n(20, 120)):
         for api in COPY_APIS:
             m = rng.choice(ms)
             k = rng.randrange(0, 5)
             warm_names = rng.sample(DERIVE[:8], k)
             scenario_copy(ctx, m, api, rng.choice(sources), warm_names)
+    timing["copy"] = round(time.time() - t0, 1)
+    t0 = time.time()
     # (c) exports
-    for rep in range(ctx.n(1, 3)):
+    for rep in range(ctx.n(2, 6)):
         for api, (code, _) in EXPORT_APIS.items():
             m = rng.choice(ms)
             for second in (False, True):
@@ -1174,6 +1214,7 @@ def run(ctx):
                 for source in (["topology", "dataset"] if code == 0 else [rng.choice(["topology", "dataset"])]):
                     scenario_export(ctx, m, api, source, second)
         scenario_export(ctx, rng.choice(ms), "to_geodataframe", "topology", False, uxda_flow=True)
+    timing["export"] = round(time.time() - t0, 1)
 
 
 def replay(ctx, rp):
